@@ -125,8 +125,9 @@ def fault_trace(mode, seed, faults, baseline, skip_close=False, wcap_seed=None, 
         last = max([i for i, e in enumerate(evs) if e['ev'] == 'conn'] or [0])
         # only the connection made by the recovery is judged: on the broken one a write that failed in the middle of a packet
         # is legitimately followed by further packets (e.g. the CLSE of pull's finally)
-        if any(k_ == 'cancel' for k_ in faults.values()):
-            return tr, fault, evs           # a cancellation does not break the connection: everything on the wire is judged
+        if any(k_ == 'cancel' for k_ in faults.values()) and all(c_ == 'bulk_read' for (_, c_, _) in fault.fired):
+            return tr, fault, evs           # a cancellation while waiting for the device does not break the connection: everything on the wire is judged
+        # (a cancellation that arrives during a write may leave a message half-sent, like any failed write: only the recovery is judged)
         return tr, fault, evs[last:]
     return tr, fault
 
@@ -215,7 +216,7 @@ def body(ctx):
         if expect is not None and expect not in names:
             raise tlc.TlcError('vacuity: sanity mutation %s/%s/%s does not violate %s' % (nf, nc, sp, expect))
     # 2. fault enumeration
-    traces, meta, env_traces = [], [], []
+    traces, meta, env_traces, env_meta = [], [], [], []
     for mode in ('sync', 'async'):
         base, ncalls, calls = baseline_for(mode, ctx.seed)
         ctx.extra.setdefault('transport_calls_in_scenario', {})[mode] = ncalls
@@ -233,6 +234,7 @@ def body(ctx):
                 env_traces.append(evs)
                 meta.append(dict(kind='fault', mode=mode, at={str(k): kind}, call=calls[k][0] if k < len(calls) else '?', recovery_without_close=bool(variant & 1), short_writes=bool(variant & 2),
                                  recovery_maxdata=rmax))
+                env_meta.append(meta[-1])
         # a fault exactly at the close() that follows the healthy scenario, and at the connect() after it
         for extra in (0, 1, 2, 3, 4, 5):
             for kind in ('timeout', 'reset') + (('cancel',) if mode == 'async' else ()):
@@ -267,7 +269,7 @@ def body(ctx):
     for (i, l, v) in ver2:
         if v.startswith('C02.') or v in ('C04.AfterClose', 'C04.DoubleClose', 'C04.Maxdata'):
             e_ = env_traces[i][l - 2]
-            ctx.violation('C12.CleanSession(' + v + ')', dict(meta[i], failing_event=l - 1, event={kk: e_.get(kk) for kk in ('ev', 'cmd', 'a0', 'a1', 'reason')}))
+            ctx.violation('C12.CleanSession(' + v + ')', dict(env_meta[i], failing_event=l - 1, event={kk: e_.get(kk) for kk in ('ev', 'cmd', 'a0', 'a1', 'reason')}))
     ctx.cov['exhaustive'] = True
     ctx.cov['rule'] = 'one case per (implementation, transport-call index k of the scenario, fault kind) - every k is enumerated; thorough adds random pairs (k1<k2); a case is non-trivial when the fault fired (all are distinct by construction)'
     ctx.sample(dict(meta[10], events=traces[10]))
